@@ -236,9 +236,11 @@ Theorem sm_layout default cmd m b :
        | [] => exists bytes e', smpp_encode default m (text_of m) = Ok (bytes, e')
                  /\ (match e' with Some e => enc_data_coding e | None => Ok 0 end) = Ok dc
                  /\ ((sm = bytes /\ ptlv = [] /\ Z.of_nat (length bytes) <= 254 /\ s_payload m = [])
-                     \/ (sm = [] /\ ptlv = spec_tlv TLV_MESSAGE_PAYLOAD bytes))
+                     \/ (sm = [] /\ ptlv = spec_tlv TLV_MESSAGE_PAYLOAD bytes /\ Z.of_nat (length bytes) <= 65535
+                         /\ (254 <? Z.of_nat (length bytes)) || (match s_payload m with [] => false | _ => true end) = true))
        | pre => sm = pre /\ ptlv = []
-       end.
+       end
+    /\ 0 <= s_seq m <= 4294967295 /\ Z.of_nat (length b) <= 4294967295.
 Proof.
   cbn [encode]. unfold encode_sm. fold (text_of m). fold (sent_opts m).
   destruct (match s_pre m with [] => _ | _ => _ end) as [[[sm ptlv] e']|] eqn:Est; cbn [rbind]; [|discriminate].
@@ -247,6 +249,8 @@ Proof.
   destruct (cstr (s_service m) +++ _) as [body|] eqn:Eb; cbn [rbind]; [|discriminate].
   intros He.
   destruct (pack_header _ _ _ _) as [hd|] eqn:Eh; cbn [rbind fst] in He; [|discriminate]. injection He as <-.
+  pose proof (pack_header_inv _ _ _ _ _ Eh) as (Rlen & _ & _ & Rseq & Hhl & _).
+  assert (Z.of_nat (length (hd ++ body)) <= 4294967295) as Rtot by (rewrite app_length, Hhl; lia).
   apply pack_header_spec in Eh. subst hd.
   apply rapp_inv in Eb as (x1 & r & E1 & Eb & ->). apply rapp_inv in Eb as (x2 & r2 & E2 & Eb & ->).
   apply rapp_inv in Eb as (x3 & r3 & E3 & Eb & ->). apply rapp_inv in Eb as (x4 & r4 & E4 & Eb & ->).
@@ -271,6 +275,8 @@ Proof.
   split. { unfold spec_pdu, spec_sm_body. cbn [w_service w_src_ton w_src_npi w_src w_dst_ton w_dst_npi w_dst w_esm w_pid w_prio w_sched w_valid
                                               w_regdel w_replace w_dc w_defmsg w_sm w_tlvs]. unfold u8. rewrite <- !app_assoc. reflexivity. }
   split; [reflexivity|]. split; [reflexivity|]. split; [reflexivity|].
+  assert (forall P Q : Prop, P -> Q -> P /\ Q) as Hconj by (intros; split; assumption).
+  apply Hconj; [|split; [exact Rseq|exact Rtot]].
   destruct (s_pre m) as [|p0 pre].
   - destruct (smpp_encode default m (text_of m)) as [[bytes e'']|] eqn:Ese; cbn [rbind] in Est; [|discriminate].
     exists bytes, e''.
@@ -278,7 +284,8 @@ Proof.
     destruct ((254 <? Z.of_nat (length bytes)) || _) eqn:Ebig.
     + destruct (packH TAG_MESSAGE_PAYLOAD +++ packH (Z.of_nat (length bytes))) as [tl|] eqn:Etl; cbn [rbind] in Est; [|discriminate].
       injection Est as <- <- <-. split; [reflexivity|]. split; [exact Edc|]. right. split; [reflexivity|].
-      apply rapp_inv in Etl as (y1 & y2 & F1 & F2 & ->). apply packH_inv in F1 as [_ ->]. apply packH_inv in F2 as [_ ->].
+      apply rapp_inv in Etl as (y1 & y2 & F1 & F2 & ->). apply packH_inv in F1 as [_ ->]. apply packH_inv in F2 as [R2 ->].
+      split; [|split; [lia|reflexivity]].
       destruct tlv_table_is_spec as (_ & _ & _ & _ & _ & -> & _). unfold spec_tlv. rewrite <- !app_assoc. reflexivity.
     + injection Est as <- <- <-. split; [reflexivity|]. split; [exact Edc|]. left.
       apply orb_false_iff in Ebig as [B1 B2]. apply Z.ltb_ge in B1.
